@@ -61,9 +61,18 @@ fn outcome(s: x::Strategy, o: x::Outcome) -> Sexp {
     match o {
         x::Outcome::Done(f) => l(vec![a(x::strategy_name(s)), conv::formula(&f)]),
         x::Outcome::Nonterminating => l(vec![a("nonterminating")]),
+        x::Outcome::FixpointDiffers(f) => l(vec![a("apply-fixpoint-differs"), conv::formula(&f)]),
     }
 }
 fn gen_strategy_case(rng: &mut Rng) -> Sexp {
+    if rng.chance(4) {
+        // formulas on which the fixpoint loop needs many passes (families of ext::clsterm: quantifier
+        // prefixes, conjunctions of quantified formulas, tau* of long bodies): up to FIXPOINT_FUEL + 1
+        // passes are replayed and then compared with the real `apply_fixpoint`; formulas whose
+        // intermediate results explode (chains of definitions: size 2^n) are left to `classic_passes`, which caps the size
+        let f = crate::ext::clsterm::tame_case(rng);
+        return l(vec![a("fixpoint"), conv::formula(&f)]);
+    }
     let s = x::strategy(rng);
     let f = x::formula_nested(rng);
     l(vec![a(x::strategy_name(s)), conv::formula(&f)])
